@@ -58,6 +58,33 @@ CLAIMED = {
         'LLC are replaced by assumed contracts/models that use only the public frontend API. __str__ attribute reads '
         'are not covered.',
    technique='contract-based deductive verification: ghost lock state + interface preconditions per call site (pyvc)'),
+ 'C17': dict(
+   category='proof',
+   text='Address-table contracts on llc._bind_by_none/_bind_by_addr/_bind_by_name/bind/close/dispatch and '
+        'LogicalDataLink.recvfrom over a symbolic 64-entry table (entries instantiated lazily): the address handed out '
+        'was free and is the least free one in its range (32-63 anonymous, 16-31 named, fixed address for well-known '
+        'names), EFAULT/EACCES/EADDRINUSE/EAGAIN/EINVAL exactly in the stated cases with nothing changed, every other '
+        'entry unchanged (frame), closing the last socket frees the address, a UI PDU is delivered only to the socket '
+        'bound at its DSAP with payload and source intact, connect-by-name reaches the socket bound under the name or '
+        'answers DM.',
+   design_ref='DESIGN.md section 5 (C17)',
+   note='One socket per service access point in the table shape; service-name syntax check (regular expression) is an '
+        'uninterpreted predicate; resolve() (blocking) and cross-device delivery are not covered (the channel is C10/C11); '
+        'an exhausted 16-31 range raises EADDRNOTAVAIL as the existing tests pin (the statement lists EAGAIN).',
+   technique='contract-based deductive verification: data-structure contracts with frame conditions (pyvc)'),
+ 'C05': dict(
+   category='proof',
+   text='Representation invariant of an ESTABLISHED DataLinkConnection (modulo-16 counters, outstanding I PDUs <= RW(R), '
+        'queued + unconfirmed received I PDUs == V(R)-V(RA) <= RW(L)) proved to be preserved by send, recv, sendack, '
+        'dequeue and by the reception of I, RR and RNR PDUs, for all counter values (wrap-around included) and '
+        'unbounded queues; send refuses oversize messages and a full window and otherwise appends I(N(S)=V(S)); an I '
+        'PDU is accepted iff N(S)==V(R) and it fits the MIU, is appended at the tail, else FRMR; acknowledgements carry '
+        'N(R)=V(RA); connect/accept adopt the peer\'s MIU and RW; sequence state is written only under the lock.',
+   design_ref='DESIGN.md section 5 (C05)',
+   note='Per endpoint only: each method is one atomic step (lock discipline is checked); peer conformance (N(R) within '
+        'V(SA)..V(S), N(S) within the window) is a precondition; blocking send (wait on a full window), thread schedules '
+        'and the two-endpoint composition (paper lemma over a FIFO channel) are not decided.',
+   technique='contract-based deductive verification: representation invariant per operation (pyvc)'),
 }
 
 NOT_APPLICABLE = {}
